@@ -1021,3 +1021,45 @@ CHECKS["C20"]["note"] = (
     'by a folder, file or cache path could leak between histories evaluated by the same worker (each history has '
     'its own path).'
 )
+
+CHECKS["C22"]["text"] = (
+    'Models y = delay(expr, dur) on a fixed declaration header with two or three symbols of each category {literal, '
+    'constant, parameter (valued, unvalued, expression-valued, array element), fixed input (scalar, element of an '
+    "'each fixed=true' array), free input (default, explicit fixed=false, array element), time, state (one of them "
+    "with fixed=true), der(state), algebraic} and a tenth category 'delayed signal' (20 durations delay(E, D): E a "
+    'state / algebraic / free input / array element / der(state) / time / mixed expression / '
+    'constant-parameter-fixed-input expression, D allowed, disallowed, or again a delayed signal): dur over every '
+    'single symbol (41) and every ordered pair of categories joined by + and by * (251 durations quick, 431 '
+    'thorough), expr in {x, 2*x+p, xv[2], whole vector xv} outside and {x, 2*xv[i]+p, xv[i]} (thorough: xv[i-1]) '
+    "inside 'for i in 2:3'; two-delay models over every ordered pair of single-symbol durations (10x10 quick, 25x25 "
+    'thorough) x layouts {out/out, out/loop, loop/out, same loop, two loops} x 3 (thorough 9) expression pairs '
+    "(thorough: also every two-symbol duration next to p / u in either position); via-variable models 'tau = "
+    "delay(E, D)' (before / after its use, or + p) with dur in {tau, tau+p, uf*tau}; each under the option sets "
+    'default, expand_vectors, expand_vectors+expand_mx, detect_aliases, replace_constant_*, replace_parameter_*, '
+    'reduce_affine_expression, unroll_loops=False (thorough: their combinations, expand_mx, '
+    'replace_parameter_expressions alone), the via-variable models also under eliminable_variable_expression=tau '
+    '(+expand_vectors, +detect_aliases). One transfer_model call (cache and codegen off) on a scratch folder per '
+    '(model, option set): 20.4k quick, 491k thorough. Oracle: accepted iff every free symbol of every duration '
+    '(including the durations of delays nested in a duration) is a literal, constant, parameter or fixed input '
+    '(category from our own declarations); a duration that mentions the delayed value of a state, derivative, '
+    'algebraic variable, free input or time, or an algebraic variable defined by a delay, must be rejected; for '
+    'accepted models every source delay is linked to its delay state (perturbing the delay inputs and the target '
+    'variable in the real DAE residual, or via the alias relation when the target was eliminated) and '
+    "delay_arguments_function must return, at that state's position in model.delay_states, the reference value "
+    '(vf.ref.mast.evn) of the source expression and duration on 3 grid points; delay states must be inputs, 2 '
+    'outputs per delay state, no delay state without a source delay.'
+)
+
+CHECKS["C22"]["note"] = (
+    'Any exception counts as rejection of a should-reject model (ValueError from Model._post_checks is the '
+    'documented one and is counted separately); any exception on a should-accept model is a violation. No verdict '
+    'is demanded for a duration that is the delayed value of an expression over constants, parameters and fixed '
+    "inputs only (the statement's two sentences disagree: in the source it depends only on allowed symbols, in the "
+    'model on the non-fixed delay-state input; the code rejects), nor for tau = such a delay under the options that '
+    'replace tau by its definition; these models are run and counted. Durations are loop-invariant scalars: pv[i] '
+    'or the loop index as a duration, delay of a bare literal, delays inside functions / if-equations, aliases that '
+    "change a symbol's category (algebraic = fixed input; a fixed=true attribute on an algebraic variable that "
+    'detect_aliases ORs into an input), eliminate_constant_assignments, cache / codegen (C19) and arrays with '
+    "element-wise fixed={..} are outside the alphabet. Finite grid. transfer_model parses through pymoca's default "
+    'parse cache (worker-private folder).'
+)
